@@ -457,16 +457,24 @@ fn apply_filter_with_static_argument_value<'query, Vertex: Debug + Clone + 'quer
             apply_filter_op_with_static_argument(right_value, not!(has_substring), iterator)
         }
         Operation::RegexMatches(_, _) => {
-            let pattern =
-                Regex::new(right_value.as_str().expect("regex argument was not a string"))
-                    .expect("regex argument was not a valid regex");
-            apply_filter_op_with_static_argument(pattern, regex_matches_optimized, iterator)
+            // Argument validation cannot rule out strings that aren't valid regexes.
+            // As with tagged values, an invalid pattern is declared to not match anything.
+            match Regex::new(right_value.as_str().expect("regex argument was not a string")) {
+                Ok(pattern) => {
+                    apply_filter_op_with_static_argument(pattern, regex_matches_optimized, iterator)
+                }
+                Err(_) => apply_filter_op_with_static_argument((), |_, _| false, iterator),
+            }
         }
         Operation::NotRegexMatches(_, _) => {
-            let pattern =
-                Regex::new(right_value.as_str().expect("regex argument was not a string"))
-                    .expect("regex argument was not a valid regex");
-            apply_filter_op_with_static_argument(pattern, not!(regex_matches_optimized), iterator)
+            match Regex::new(right_value.as_str().expect("regex argument was not a string")) {
+                Ok(pattern) => apply_filter_op_with_static_argument(
+                    pattern,
+                    not!(regex_matches_optimized),
+                    iterator,
+                ),
+                Err(_) => apply_filter_op_with_static_argument((), |_, _| true, iterator),
+            }
         }
 
         Operation::IsNull(_) | Operation::IsNotNull(_) => unreachable!("{filter:?}"),
